@@ -505,4 +505,20 @@ def recvHandle : List CMsg → Option Reply → COut
   | .error m :: _, _ => .raised m
   | .other r :: rest, _ => recvHandle rest (some r)
 
+/-- outcome of `Compiler._recv_log_error_until_empty` (run before every request is sent) -/
+inductive PreOut where
+  | clean                     -- pipe empty: the request goes out
+  | raised (msg : Nat)        -- a pending ERROR: RuntimeError(payload)
+  | attributeError            -- a pending LOG: `payload.name` on pickled bytes
+  | unexpected                -- any other pending message: RuntimeError('Unexpected message type')
+deriving DecidableEq, Repr
+
+/-- `_recv_log_error_until_empty` as it is: the LOG branch reads `payload.name` although the
+runtime ships `pickle.dumps(record)` (known finding), so the first pending message decides. -/
+def preDrain : List CMsg → PreOut
+  | [] => .clean
+  | .log _ :: _ => .attributeError
+  | .error m :: _ => .raised m
+  | .other _ :: _ => .unexpected
+
 end BqVerif.Server
